@@ -869,16 +869,19 @@ def op_checklocktimeverify(stack, tx_obj, input_index):
 
 def op_checksequenceverify(stack, tx_obj, input_index):
     sequence = tx_obj.tx_ins[input_index].sequence
-    if not sequence.is_relative():
-        return False
     if len(stack) < 1:
         return False
     element = decode_num(stack[-1])
     if element < 0:
         return False
+    stack_sequence = Sequence(element)
+    # BIP112: if the disable flag of the operand is set, this is a NOP
+    if not stack_sequence.is_relative():
+        return True
+    if not sequence.is_relative():
+        return False
     if tx_obj.version < 2:
         return False
-    stack_sequence = Sequence(element)
     if not sequence.is_comparable(stack_sequence):
         return False
     if sequence < stack_sequence:
